@@ -117,6 +117,12 @@ impl QA {
         writeln!(self.a, "{a}").unwrap();
         self.n += 1;
     }
+    /// write everything buffered so far (both files hold the same number of complete lines afterwards); returns the row count
+    pub fn flush(&mut self) -> u64 {
+        self.q.flush().unwrap();
+        self.a.flush().unwrap();
+        self.n
+    }
     pub fn finish(mut self) -> u64 {
         self.q.flush().unwrap();
         self.a.flush().unwrap();
@@ -142,4 +148,10 @@ pub fn quiet_panics() {
         return;
     }
     std::panic::set_hook(Box::new(|_| {}));
+}
+
+/// Scratch directory of this process for sub-command `name` (SQLite files of the members): one per process, so that
+/// concurrent runs (two checks, a check and a replay) never share or delete each other's files.
+pub fn scratch(name: &str) -> String {
+    format!("/tmp/vharness-scratch-{name}-{}", std::process::id())
 }
